@@ -235,6 +235,7 @@ type recorder struct {
 	// strings and keys handed over BY VALUE, as delivered (not copied) and as copied at delivery
 	// time: a Go string is immutable, so the two must still agree when the run is over (C15)
 	kept, clones []string
+	failErr      error // the injected error (errInjected unless set)
 }
 
 func (r *recorder) keep(s string) {
@@ -265,6 +266,9 @@ func (r *recorder) add(e event) error {
 		r.onCall()
 	}
 	if r.failAt >= 0 && r.calls-1 >= r.failAt {
+		if r.failErr != nil {
+			return r.failErr
+		}
 		return errInjected
 	}
 	return nil
